@@ -121,6 +121,7 @@ type Ranger struct {
 	envN  int
 	stack []*ssa.Function
 	sums  map[string][]AV
+	quiet bool // evaluating comparison operands for an environment: no diagnostics
 }
 
 func NewRanger(P *Program, spec *RangeSpec) *Ranger {
@@ -229,7 +230,10 @@ func (E *Ranger) envFrom(ctx *callCtx, ff *FuncFacts, atoms []*Atom) *evalEnv {
 		if v == nil || v == NilMarker || !isNumericCarrier(v.Type()) {
 			return Itv{}, false
 		}
+		q := E.quiet
+		E.quiet = true
 		av := E.eval(ctx, base, v, 0)
+		E.quiet = q
 		return av.R, true
 	}
 	meet := func(v ssa.Value, f func(Itv) Itv) {
@@ -888,7 +892,9 @@ func (E *Ranger) avInv(b AV, what string) (AV, bool) {
 func (E *Ranger) avQuo(a, b AV, what string) AV {
 	ib, ok := E.avInv(b, what)
 	if !ok {
-		E.note("%s: divisor %s may be zero", what, b.R)
+		if !E.quiet {
+			E.note("%s: divisor %s may be zero", what, b.R)
+		}
 		r := topAV()
 		r.D = DUnk
 		return r
@@ -1135,4 +1141,22 @@ func (E *Ranger) mathCall(ctx *callCtx, env *evalEnv, c *ssa.Call, mn string, de
 		return a, true
 	}
 	return AV{}, false
+}
+
+// SetRef designates the reference value of the F relation (evaluated in ctx at in).
+func (E *Ranger) SetRef(ctx *callCtx, v ssa.Value, in ssa.Instruction) {
+	E.Ref = nil
+	r := E.ValAt(ctx, v, in)
+	E.Ref = E.fwd(ctx, v)
+	E.RefR = r.R
+	// memoised values were computed without the relation
+	E.memo = map[string]AV{}
+	E.sums = nil
+}
+
+// ClearRef removes the reference value.
+func (E *Ranger) ClearRef() {
+	E.Ref = nil
+	E.memo = map[string]AV{}
+	E.sums = nil
 }
